@@ -324,6 +324,11 @@ func runRolloutWithCut(scn *Scn, f Factory, edits []int, midSyncs int, ogStyle i
 			if err := env.judgeNotAhead(fmt.Sprintf("after %s at request %d of rollout sync %d", plan.Kind, plan.Req, plan.Sync)); err != nil {
 				return t, withTrace(err, t)
 			}
+		} else if counted {
+			// every sync boundary is a possible crash point too
+			if err := env.judgeNotAhead(fmt.Sprintf("after rollout sync %d", phase)); err != nil {
+				return t, withTrace(err, t)
+			}
 		}
 		return t, nil
 	}
@@ -383,6 +388,15 @@ func PropC09(c *vs.Case, f Factory, o RolloutOpts) error {
 		}
 		edits = append(edits, second)
 		midSyncs = c.Int(3)
+	}
+	if !o.Small && !o.SingleEdit && c.Prob(1, 5) {
+		// the parent is deleted while the rollout runs; its finalize hook keeps asking for the children
+		scn.Cfg.FinalizeHook = true
+		scn.Prog.FinalizeMode = 1
+		scn.Prog.FinalizedMode = 2
+		edits = append(edits[:1], 9)
+		midSyncs = c.Int(3)
+		c.Class("parent-deleted-mid-rollout")
 	}
 	cur := CutPlan{Sync: -1}
 	c.Describe(func() any {
